@@ -28,6 +28,26 @@ var c20atoms = []c20atom{
 
 var c20aliases = []string{"", "a", "a_1", "mean_1", "t"}
 
+// the exhaustive enumeration uses the first 12 atoms and 5 aliases; random and
+// long lists also use names that look like formatting directives or need quotes
+var c20nExhAtoms, c20nExhAliases = len(c20atoms), len(c20aliases)
+
+func init() {
+	c20atoms = append(c20atoms,
+		c20atom{`"u%"`, "u%", nil}, c20atom{`"%d"`, "%d", nil}, c20atom{`"100%s" + b`, "100%s_b", nil}, c20atom{`top(a, "t%", 2)`, "top", []string{"t%"}},
+		c20atom{`"a b"`, "a b", nil}, c20atom{`mean("a b")`, "mean", nil})
+	c20aliases = append(c20aliases, "u%", "%d", "a b", "a%%", "%!d(MISSING)")
+}
+
+func c20quote(al string) string {
+	for _, ch := range al {
+		if !(ch >= 'a' && ch <= 'z' || ch >= 'A' && ch <= 'Z' || ch == '_' || ch >= '0' && ch <= '9') {
+			return `"` + al + `"`
+		}
+	}
+	return al
+}
+
 type c20col struct {
 	alias string
 	def   string
@@ -46,7 +66,7 @@ func c20Text(fields [][2]int, v c20variant) string {
 	for _, f := range fields {
 		s := c20atoms[f[0]].text
 		if al := c20aliases[f[1]]; al != "" {
-			s += " AS " + al
+			s += " AS " + c20quote(al)
 		}
 		parts = append(parts, s)
 	}
@@ -204,6 +224,20 @@ func c20One(c *Ctx, fields [][2]int, v c20variant, local map[string]int64) {
 		r.Violation("column-names", det(fmt.Sprintf("not a pure function of the statement: after changing OmitTime / TimeAlias the statement answers %q, an identical fresh statement answers %q", again, want2)))
 		return
 	}
+	// the names depend on the field list, not on flags kept next to it
+	{
+		var a1, a2 []string
+		mon.Try(func() {
+			a1 = sel.ColumnNames()
+			sel.IsRawQuery = !sel.IsRawQuery
+			a2 = sel.ColumnNames()
+			sel.IsRawQuery = !sel.IsRawQuery
+		})
+		if strings.Join(a1, "\x00") != strings.Join(a2, "\x00") {
+			r.Violation("column-names", det(fmt.Sprintf("the answer follows the IsRawQuery flag (%q with it as parsed, %q with it flipped), not the field list", a1, a2)))
+			return
+		}
+	}
 	// the expressions themselves are edited in place (every reference renamed):
 	// the names follow the statement as it is now, as they do for the same
 	// statement printed and parsed afresh
@@ -230,7 +264,7 @@ func init() { Registry["C20"] = checkC20 }
 
 func checkC20(c *Ctx) (string, bool, []string) {
 	r := c.R
-	rule := "all field lists of length <=3 (<=4 thorough) over 12 atoms x 5 alias choices, each with and without INTO; OmitTime and time-alias variants on every list of length <=2 and a sample of longer ones; random lists up to length 10. Non-trivial = at least two fields or a top()/bottom() atom; distinct by statement text + variant."
+	rule := "all field lists of length <=3 (<=4 thorough) over 12 atoms x 5 alias choices, each with and without INTO; OmitTime and time-alias variants on every list of length <=2 and a sample of longer ones; random lists up to length 10 and (one in 25) of 60-140 fields, also over names that need quotes or look like formatting directives. Non-trivial = at least two fields or a top()/bottom() atom; distinct by statement text + variant."
 	assume := []string{"default names: reference=its name, call=function name, arithmetic=operand names joined by '_', parenthesised=inner", "with INTO the tag arguments of top()/bottom() are not separate columns"}
 	if c.Replay != nil {
 		var fields [][2]int
@@ -247,7 +281,7 @@ func checkC20(c *Ctx) (string, bool, []string) {
 		c20One(c, fields, v, map[string]int64{})
 		return rule, false, assume
 	}
-	per := len(c20atoms) * len(c20aliases)
+	per := c20nExhAtoms * c20nExhAliases
 	maxLen := c.N(3, 4)
 	total := 0
 	pow := 1
@@ -271,7 +305,7 @@ func checkC20(c *Ctx) (string, bool, []string) {
 			for i := l - 1; i >= 0; i-- {
 				f := x % per
 				x /= per
-				fields[i] = [2]int{f / len(c20aliases), f % len(c20aliases)}
+				fields[i] = [2]int{f / c20nExhAliases, f % c20nExhAliases}
 			}
 			variants := []c20variant{{}, {into: true}}
 			if l <= 2 || idx%17 == 0 {
@@ -302,6 +336,10 @@ func checkC20(c *Ctx) (string, bool, []string) {
 		rg := mon.NewRng(c.Seed, "c20.rand", i)
 		local := map[string]int64{}
 		l := rg.Range(5, 10)
+		if i%25 == 0 {
+			l = rg.Range(60, 140) // more columns than a machine word has bits
+			local["long-lists"]++
+		}
 		fields := make([][2]int, l)
 		for j := range fields {
 			fields[j] = [2]int{rg.Intn(len(c20atoms)), rg.Intn(len(c20aliases))}
